@@ -10,19 +10,12 @@ META = {
 }
 
 
-def _mc(c, *a, **k):
-    import os
-    if os.environ.get("VERIF_SKIP_MC"):  # speed-up for mutation testing only: the model does not depend on /repo
-        return None
-    return c.tlc_mc(*a, **k)
-
-
 def run(c):
-    _mc(c, "Relay", "MCRelay.cfg")
-    _mc(c, "Relay", "MCRelay_canary.cfg", expect=["ResLimits", "CircLimits"])
-    _mc(c, "Relay", "MCRelay_canary2.cfg", expect=["CircLimits"])
+    c.tlc_mc("Relay", "MCRelay.cfg")
+    c.tlc_mc("Relay", "MCRelay_canary.cfg", expect=["ResLimits", "CircLimits"])
+    c.tlc_mc("Relay", "MCRelay_canary2.cfg", expect=["CircLimits"])
     if not c.quick:
-        _mc(c, "Relay", "MCRelay2.cfg", timeout=1000)
+        c.tlc_mc("Relay", "MCRelay2.cfg", timeout=1000)
     drv = c.build("drv-relaybeh")
     if c.replay:
         t = c.rundir / "replay_trace.ndjson"
